@@ -68,7 +68,7 @@ SW == [order |-> SwOrderUser, loaduser |-> SwLoadUser, fresh |-> SwFreshMeta, to
 \* ---- server state ----
 Snapshot(d) == [loaded |-> TRUE, known |-> { f \in MFiles : d[f] # None }, imp |-> [f \in MFiles |-> ImportsOf(d[f])]]
 NoMeta == [loaded |-> FALSE, known |-> {}, imp |-> [f \in MFiles |-> {}]]
-NoPc == [valid |-> FALSE, u |-> "-", f |-> "-", steps |-> <<>>, flags |-> <<>>, world |-> [f \in MFiles |-> None]]
+NoPc == [valid |-> FALSE, u |-> "-", f |-> "-", steps |-> <<>>, bad |-> FALSE, flags |-> <<>>, world |-> [f \in MFiles |-> None]]
 InitDisk == [d \in Dirs |-> [f \in MFiles |-> IF f = "t1" THEN "c1" ELSE None]]
 \* app/ide.py ends with basic.load_metadata('master'): master's snapshot is taken when the server starts
 CleanSrv(disk) == [meta |-> [d \in Dirs |-> IF d = "master" THEN Snapshot(disk["master"]) ELSE NoMeta], pc |-> NoPc, thy |-> {}]
@@ -81,16 +81,19 @@ LoadCache(sw, s, disk, u, f) ==
   IN [s |-> s1, imps |-> imps,
       ok |-> f \in m.known /\ disk[u][f] # None /\ \A g \in imps : g \in m.known /\ disk[u][g] # None]
 VisOf(disk, u, f, imps, lim) == UNION { ItemSet(disk[u][g]) : g \in imps } \cup BeforeSet(disk[u][f], lim)
-\* ProofCache.check_cache / create_cache for the request data (u, f, steps)
-EnsureCache(sw, s, disk, u, f, steps) ==
-  LET hit == s.pc.valid /\ s.pc.u = u /\ s.pc.f = f /\ s.pc.steps = steps /\ (sw.world => s.pc.world = disk[u])
+\* ProofCache.check_cache / create_cache for the request data (u, f, steps, statement); bad = the statement does not parse:
+\* create_cache then fails AFTER the theory was loaded
+EnsureCache(sw, s, disk, u, f, steps, bad) ==
+  LET hit == s.pc.valid /\ s.pc.u = u /\ s.pc.f = f /\ s.pc.steps = steps /\ s.pc.bad = bad /\ (sw.world => s.pc.world = disk[u])
       lc == LoadCache(sw, s, disk, u, f)
       vis == VisOf(disk, u, f, lc.imps, ThmOf(f))
+      s1 == IF lc.ok THEN [lc.s EXCEPT !.thy = vis] ELSE lc.s
   IN IF hit THEN [ok |-> TRUE, s |-> s]
-     ELSE IF ~lc.ok THEN [ok |-> FALSE, s |-> IF sw.atomic \/ ~s.pc.valid THEN [lc.s EXCEPT !.pc = NoPc]
-                                               ELSE [lc.s EXCEPT !.pc.u = u, !.pc.f = f, !.pc.steps = steps, !.pc.world = disk[u]]]
-     ELSE [ok |-> TRUE, s |-> [lc.s EXCEPT !.thy = vis,
-                                         !.pc = [valid |-> TRUE, u |-> u, f |-> f, steps |-> steps, flags |-> Flags(steps, vis), world |-> disk[u]]]]
+     ELSE IF ~lc.ok \/ bad
+          THEN [ok |-> FALSE, s |-> IF sw.atomic \/ ~s.pc.valid THEN [s1 EXCEPT !.pc = NoPc]
+                                    ELSE [s1 EXCEPT !.pc.u = u, !.pc.f = f, !.pc.steps = steps, !.pc.bad = bad, !.pc.world = disk[u]]]
+     ELSE [ok |-> TRUE, s |-> [s1 EXCEPT !.pc = [valid |-> TRUE, u |-> u, f |-> f, steps |-> steps, bad |-> FALSE, flags |-> Flags(steps, vis),
+                                                 world |-> disk[u]]]]
 \* one request; `steps` = the steps the client sends along (init: none)
 Srv(sw, s, disk, r, steps) ==
   LET u == r.u  f == r.f IN
@@ -112,11 +115,11 @@ Srv(sw, s, disk, r, steps) ==
          LET lc == LoadCache(sw, s, disk, u, f)
          IN IF ~lc.ok \/ "la" \notin ItemSet(disk[u][f]) THEN Fail(sw, lc.s, disk)
             ELSE [s |-> [lc.s EXCEPT !.thy = VisOf(disk, u, f, lc.imps, "la")], disk |-> disk, ans |-> Ans("item", {}, <<r.e>>, <<>>)]
-    [] r.op \in {"init", "reinit"} ->
-         LET ec == EnsureCache(sw, s, disk, u, f, steps)
+    [] r.op \in {"init", "reinit", "initbad"} ->
+         LET ec == EnsureCache(sw, s, disk, u, f, steps, r.op = "initbad")
          IN IF ~ec.ok THEN Fail(sw, ec.s, disk) ELSE [s |-> ec.s, disk |-> disk, ans |-> Ans("proof", {}, <<>>, ec.s.pc.flags)]
     [] r.op = "apply" ->
-         LET ec == EnsureCache(sw, s, disk, u, f, steps)
+         LET ec == EnsureCache(sw, s, disk, u, f, steps, FALSE)
              lc == LoadCache(sw, ec.s, disk, u, f)
              thy == IF sw.reload THEN VisOf(disk, u, f, lc.imps, ThmOf(f)) ELSE ec.s.thy
              s2 == IF sw.reload THEN [lc.s EXCEPT !.thy = thy] ELSE ec.s
@@ -126,7 +129,7 @@ Srv(sw, s, disk, r, steps) ==
                  THEN [s |-> IF sw.keeps THEN s2 ELSE [s2 EXCEPT !.pc.flags = [i \in DOMAIN s2.pc.flags |-> FALSE]], disk |-> disk, ans |-> A0("stepfail")]
             ELSE [s |-> grown, disk |-> disk, ans |-> Ans("proof", {}, <<>>, grown.pc.flags)]
     [] r.op = "search" ->
-         LET ec == EnsureCache(sw, s, disk, u, f, steps)
+         LET ec == EnsureCache(sw, s, disk, u, f, steps, FALSE)
              lc == LoadCache(sw, ec.s, disk, u, f)
              vis == VisOf(disk, u, f, lc.imps, ThmOf(f))
          IN IF ~ec.ok \/ ~lc.ok THEN Fail(sw, lc.s, disk)
@@ -155,7 +158,7 @@ ClausesOf(L, fl) ==
   \cup (IF r.op = "remove" /\ ~(IF b[u][f] # None THEN L.ans.k = "ok" /\ fl = [b EXCEPT ![u][f] = None] ELSE fl = b /\ L.ans.k # "ok")
         THEN {"RemoveExact"} ELSE {})
   \cup (IF r.op \notin {"save", "remove"} /\ fl # b THEN {"ReadOnly"} ELSE {})
-  \cup (IF r.op \in {"check", "init", "reinit", "apply", "search"} /\ L.ans # L.ref THEN {"Faithful"} ELSE {})
+  \cup (IF r.op \in {"check", "init", "reinit", "initbad", "apply", "search"} /\ L.ans # L.ref THEN {"Faithful"} ELSE {})
   \cup (IF r.op = "apply" /\ L.ans.k = "stepfail" /\ ~L.keeps THEN {"FailedStepKeeps"} ELSE {})
   \cup (IF L.ans # L.solo THEN {"Isolation"} ELSE {})
 Totality == "Totality" \notin last.viol
@@ -186,6 +189,8 @@ Save(u, f, c) == (Full(u) \/ c = "c2") /\ Do(Req("save", u, f, c, "-", "-"), <<>
 Remove(u, f) == Full(u) /\ Do(Req("remove", u, f, "-", "-", "-"), <<>>, cl[u])
 Check(u, e) == (Full(u) \/ e = "bad") /\ Do(Req("check", u, "t1", "-", e, "-"), <<>>, cl[u])
 Open(u, f) == (Full(u) \/ f = "t1") /\ Do(Req("init", u, f, "-", "-", "-"), <<>>, [open |-> TRUE, f |-> f, steps |-> <<>>])
+\* init-saved-proof with a statement that does not parse (a well-formed request with "any values")
+OpenBad(u, f) == Full(u) /\ Do(Req("initbad", u, f, "-", "-", "-"), <<>>, cl[u])
 \* a theorem whose stored proof (two steps) is opened: the front end sends the stored steps with init-saved-proof
 Stored(k) == SubSeq(<<"sI", "sLa">>, 1, k)
 OpenSaved(u, f, k) == Full(u) /\ Do(Req("reinit", u, f, "-", "-", "-"), Stored(k), [open |-> TRUE, f |-> f, steps |-> Stored(k)])
@@ -194,7 +199,7 @@ Apply(u, s) == (Full(u) \/ s = "sI") /\ cl[u].open /\ Len(cl[u].steps) < 2 /\ Do
 Search(u) == Full(u) /\ cl[u].open /\ Do(Req("search", u, cl[u].f, "-", "-", "-"), cl[u].steps, cl[u])
 Step == \E u \in Users :
            \/ Find(u) \/ Reinit(u) \/ Search(u)
-           \/ \E f \in MFiles : Load(u, f) \/ Remove(u, f) \/ Open(u, f) \/ (\E k \in 1..2 : OpenSaved(u, f, k)) \/ \E c \in CidsOf(f) : Save(u, f, c)
+           \/ \E f \in MFiles : Load(u, f) \/ Remove(u, f) \/ Open(u, f) \/ OpenBad(u, f) \/ (\E k \in 1..2 : OpenSaved(u, f, k)) \/ \E c \in CidsOf(f) : Save(u, f, c)
            \/ \E e \in {"good", "bad"} : Check(u, e)
            \/ \E s \in Steps : Apply(u, s)
 \* FirstOpens: only behaviours that begin with the first user opening a proof in t1 (vectors with many session requests)
